@@ -52,4 +52,32 @@ example : CInv (CBitSet.mk [⟨[1, 0, 0, 0, 0, 0, 0, 0], 1⟩, ⟨[0, 0, 0, 0, 0
   rcases hp with rfl | rfl <;> refine ⟨rfl, ?_, by decide⟩ <;> intro e he <;>
     simp only [List.mem_cons, List.not_mem_nil, or_false] at he <;> omega
 
+/-- (C) `BitSet::iter` (`iter_pages` through the map, `iter_non_empty_pages` filtering on the
+CACHED page length, `BitPage::iter` skipping zero elements) yields exactly the abstract members
+front to back, and their reverse when driven from the back only.  (The per-`u64` `Iter` is the
+ascending list of set bits; `DoubleEndedIterator` is the deque `DEIter` over the item sequence —
+see Model/IntSetIterConc.lean.) -/
+theorem iter_forward_backward (s : CBitSet) (hs : CInv s) :
+    s.iter = s.abs.members ∧ s.iterRev = s.abs.members.reverse := by
+  refine ⟨iter_eq_members hs, ?_⟩
+  unfold CBitSet.iterRev CBitSet.deIter
+  rw [deIter_rev _ _ (Nat.le_succ _), iter_eq_members hs]
+
+/-- double-ended consistency: after ANY interleaving of `next` (`false`) / `next_back` (`true`)
+calls, the items handed out at the front (in call order), the items not yet handed out, and the
+items handed out at the back (in reverse call order) concatenate to the abstract members — every
+member is yielded at most once, from exactly one end, fronts ascending and backs descending. -/
+theorem iter_double_ended_consistent (s : CBitSet) (hs : CInv s) (sched : List Bool) :
+    (DEIter.run sched s.deIter).1 ++ (DEIter.run sched s.deIter).2.2.rest ++
+      (DEIter.run sched s.deIter).2.1.reverse = s.abs.members := by
+  unfold CBitSet.deIter
+  rw [deIter_run_spec, iter_eq_members hs]
+
+example :
+    let s := CBitSet.mk [⟨[1, 0, 0, 0, 0, 0, 0, 0], 1⟩, ⟨[6, 0, 0, 0, 0, 0, 0, 2 ^ 63], 3⟩]
+      [(0, 1), (2, 0)] 4
+    s.iter = [1, 2, 511, 1024] ∧ s.iterRev = [1024, 511, 2, 1] ∧
+      (DEIter.run [false, true, true, false, false, true] s.deIter) = ([1, 2], [1024, 511], ⟨[]⟩) := by
+  decide
+
 end FontVerif.C14IterConc
